@@ -248,6 +248,7 @@ def run(chk):
     chk.cov['rule'] = ('TLC enumerates E x nu (5 values incl. negative and 2/5) x 216 sparse stress states for Hooke, and E x K x m in {2,3,5,8} (n = 1/m covers the FKM range) x 9 stress levels '
                        'incl. the onset of yielding for Ramberg-Osgood, in exact rationals; each state is evaluated through the real classes (scalar and array), inverses are required within '
                        'the solver\'s documented tolerance. true_strain (a logarithm) has no lattice and is checked numerically only.')
+    chk.cov['rule'] += ' Additional parts: n = 2/3 on square stress levels with arrays containing an exact zero, moduli for nu up to 4e-6 below 1/2, integer-typed components next to fractional ones, hardening exponents 0.02..0.005 with K in Pa.'
     chk.cov['exhaustive'] = True
     chk.assumptions += ['rational lattice; closed forms compared at rel 1e-11, Newton inverses at rtol 1e-5 / tol 1e-6 as documented']
 
